@@ -66,8 +66,11 @@ def weave_trigger(u, props=('C10',)):
     new.contract(ensures=[
         ('C10:scale-is-ceil-of-max-over-period', 'r.spec_scale() as int == scale_spec(period)'),
     ])
-    new.insert_before('let scale =',
-                      'proof { lemma_scale_spec(period); }\n        ')
+    # the arithmetic lemma is needed before the scale is computed, wherever that is spelled
+    if new._find('let scale =', count=True) == 1:
+        new.insert_before('let scale =', 'proof { lemma_scale_spec(period); }\n        ')
+    else:
+        new.insert_before('PeriodicTrigger {', 'proof { lemma_scale_spec(period); }\n        ', nth=-1)
     ev = u.under_contract(im.sub(['fn event']), props)
     ev.air = 'trigger::PeriodicTrigger::event'
     ev.add_param(WORLD)
